@@ -639,6 +639,15 @@ func includesCost(e *Env, v ssa.Value, costTerm string, assumed map[*ssa.Phi]boo
 			}
 		}
 		return true
+	case *ssa.UnOp:
+		if x.Op == token.MUL {
+			if f := forwarded(x); f != nil {
+				return includesCost(e, f, costTerm, assumed)
+			}
+			if w, we := e.ctorField(x); w != nil {
+				return includesCost(we, w, costTerm, assumed) // a field of a request object filled by the validating phase
+			}
+		}
 	case *ssa.Call:
 		// an extracted cost computation: every return of the helper includes the cost
 		if sc := x.Call.StaticCallee(); sc != nil && len(sc.Blocks) > 0 && sc.Pkg != nil && strings.HasPrefix(sc.Pkg.Pkg.Path(), modPath) && e.depth < maxDepth && x.Call.Signature().Results().Len() == 1 {
@@ -686,6 +695,9 @@ func subtractsCostRec(e *Env, v ssa.Value, costTerm string, seen map[ssa.Value]b
 		if x.Op == token.MUL {
 			if f := forwarded(x); f != nil {
 				return subtractsCostRec(e, f, costTerm, seen)
+			}
+			if w, we := e.ctorField(x); w != nil {
+				return subtractsCostRec(we, w, costTerm, seen)
 			}
 		}
 	case *ssa.BinOp:
